@@ -59,13 +59,49 @@ func corner() []pipe.Scenario {
 	return out
 }
 
+// exhaustive small scope: one package, one type, one generator; every combination of
+// {renders, renders nothing, ErrSkip, ErrIgnore rendering nothing, ErrIgnore after rendering} x {defined type, alias}
+// x {previous file present/absent} x {stale file present/absent} x {All on/off}
+func exhaustive() []pipe.Scenario {
+	var out []pipe.Scenario
+	steps := []pipe.Step{{Body: "var V = 1\n"}, {}, {Res: "skip"}, {Res: "ignore"}, {Res: "ignore", Body: "var W = 2\n"}}
+	for _, st := range steps {
+		for _, alias := range []bool{false, true} {
+			for _, prev := range []bool{false, true} {
+				for _, stale := range []bool{false, true} {
+					for _, all := range []bool{false, true} {
+						t := pipe.Type{Name: "T", Enabled: []string{"g1"}}
+						if alias {
+							t.Alias = "int"
+						}
+						m := pipe.Module{ModPath: "example.com/m", GoVer: "1.22", Pkgs: []pipe.Pkg{{Dir: "a", Name: "a", Types: []pipe.Type{t}}}}
+						if prev {
+							m.Files = append(m.Files, pipe.File{Path: "a/zz_generated.g1.go", Content: "package a\n\n// previous output of g1\n"})
+						}
+						if stale {
+							m.Files = append(m.Files, pipe.File{Path: "a/zz_generated.old.go", Content: "package a\n\n// stale output\n"},
+								pipe.File{Path: "a/zz_generatedx.go", Content: "package a\n\n// look-alike\n"})
+						}
+						out = append(out, pipe.Scenario{Module: m, Entry: []string{"./a"}, All: all, Base: "zz_generated",
+							Gens: []pipe.Gen{{Name: "g1", Alias: true, Steps: map[string]pipe.Step{"example.com/m/a T": st}}}})
+					}
+				}
+			}
+		}
+	}
+	return out
+}
+
 func (prop) Generate(r *core.RNG, tier string) []json.RawMessage {
-	n := 70
+	n := 120
 	if tier == "thorough" {
-		n = 1200
+		n = 1500
 	}
 	var out []json.RawMessage
 	for _, sc := range corner() {
+		out = append(out, enc(sc))
+	}
+	for _, sc := range exhaustive() {
 		out = append(out, enc(sc))
 	}
 	for i := 0; i < n; i++ {
